@@ -141,3 +141,64 @@ Print Assumptions C39_central_partial.
 Example C39_central_wf_example :
   wf_C39 (VL [VZ 4; VB w_bound; VL []]) = true /\ wf_C39 (VL [VZ 2; VZ 1; VB w_alloc]) = true.
 Proof. exact wf_example. Qed.
+
+(* Framer level round trips of the variable-size frames without a header block: what WriteFrame writes for a
+   DATA frame (any payload up to 2^24 - 1 bytes, at any wire offset o) and for a SETTINGS frame (up to 1024
+   entries with 8-bit flags, 24-bit ids, 32-bit values) is read back by ReadFrame with exactly the same fields,
+   consuming exactly the frame and leaving the following bytes `rest` untouched. *)
+Theorem C39_data_roundtrip : forall sid flags data rest o cs,
+  0 < sid < 2^31 -> 0 <= flags < 256 -> blen data <= 2^24 - 1 ->
+  read_frame (st_at (fst (write_frame (FData sid flags data)) ++ rest) o cs) =
+  (VL [VZ 0; VZ sid; VZ flags; VB data], st_at rest (o + 8 + blen data) cs).
+Proof. exact data_roundtrip. Qed.
+Print Assumptions C39_data_roundtrip.
+Theorem C39_settings_roundtrip : forall flags l rest cs,
+  0 <= flags < 256 -> (length l <= 1024)%nat -> forallb set_ok l = true ->
+  read_frame (st_at (fst (write_frame (FSettings flags l)) ++ rest) 0 cs) =
+  (VL [VZ 4; VZ 3; VZ flags; VZ (Z.of_nat (length l) * 8 + 4); VL (map set_val l)],
+   st_at rest (12 + 8 * Z.of_nat (length l)) cs).
+Proof. exact settings_roundtrip. Qed.
+Print Assumptions C39_settings_roundtrip.
+
+(* Header-bearing frame through the shared (de)compression context, with the oracle "chunk 0 at offset 12
+   inflates to the written block" (i.e. inflate(deflate x) = x): a SYN_REPLY with ANY header entries
+   (ent_ok, at most 1024, block shorter than 2^24 - 4) whose lower-cased names are pairwise distinct (e' = 0)
+   and not in the forbidden set, written by WriteFrame and read by a fresh Framer, is returned with the same
+   flags and stream id and exactly the headers obtained by Header.Add of every value (spec_step). *)
+Theorem C39_syn_reply_roundtrip : forall flags sid es rest,
+  0 <= flags < 256 -> 0 < sid < 2^31 -> forallb ent_ok es = true -> (length es <= 1024)%nat ->
+  blen (write_block es) + 4 < 2^24 ->
+  let b := write_block es in
+  let '(h', e', hl', mx') := fold_left spec_step es ([], 0, 0, 4) in
+  e' = 0 -> has_invalid invalid_resp h' = false ->
+  fst (read_frame (st_at (fst (write_frame (FReply flags sid es)) ++ rest) 0
+                         [{| c_idx := 0; c_off := 12; c_size := blen b; c_plain := b |}]))
+  = VL [VZ 2; VZ 3; VZ flags; VZ (blen b + 4); VZ sid; v_headers h'].
+Proof. exact syn_reply_roundtrip. Qed.
+Print Assumptions C39_syn_reply_roundtrip.
+
+(* The same for the other two header-bearing frames: SYN_STREAM (with its associated stream id, 3-bit priority
+   and slot; request header rules and the :path limit of 8192 bytes) and HEADERS. *)
+Theorem C39_syn_stream_roundtrip : forall flags sid assoc prio slot es rest,
+  0 <= flags < 256 -> 0 < sid < 2^31 -> 0 <= assoc < 2^31 -> 0 <= prio < 8 -> 0 <= slot < 256 ->
+  forallb ent_ok es = true -> (length es <= 1024)%nat ->
+  blen (write_block es) + 10 < 2^24 ->
+  let b := write_block es in
+  let '(h', e', hl', mx') := fold_left spec_step es ([], 0, 0, 4) in
+  e' = 0 -> has_invalid invalid_req h' = false -> url_too_long h' = false ->
+  fst (read_frame (st_at (fst (write_frame (FSyn flags sid assoc prio slot es)) ++ rest) 0
+                         [{| c_idx := 0; c_off := 18; c_size := blen b; c_plain := b |}]))
+  = VL [VZ 1; VZ 3; VZ flags; VZ (blen b + 10); VZ sid; VZ assoc; VZ prio; VZ slot; v_headers h'].
+Proof. exact syn_stream_roundtrip. Qed.
+Print Assumptions C39_syn_stream_roundtrip.
+Theorem C39_headers_roundtrip : forall flags sid es rest,
+  0 <= flags < 256 -> 0 < sid < 2^31 -> forallb ent_ok es = true -> (length es <= 1024)%nat ->
+  blen (write_block es) + 4 < 2^24 ->
+  let b := write_block es in
+  let '(h', e', hl', mx') := fold_left spec_step es ([], 0, 0, 4) in
+  e' = 0 -> has_invalid (if sid mod 2 =? 0 then invalid_req else invalid_resp) h' = false -> url_too_long h' = false ->
+  fst (read_frame (st_at (fst (write_frame (FHeaders flags sid es)) ++ rest) 0
+                         [{| c_idx := 0; c_off := 12; c_size := blen b; c_plain := b |}]))
+  = VL [VZ 8; VZ 3; VZ flags; VZ (blen b + 4); VZ sid; v_headers h'].
+Proof. exact headers_roundtrip. Qed.
+Print Assumptions C39_headers_roundtrip.
